@@ -295,7 +295,7 @@ def trace_for(job, gbfile, prop, workdir, log, timeout=None):
                 val = st.get('value', {})
                 if st.get('hidden'):
                     continue
-                if fn == job.entry or lhs.startswith('vp_') or lhs.startswith('VP_') or lhs.startswith('g_'):
+                if fn == job.entry or fn in job.scope or lhs.startswith('vp_') or lhs.startswith('VP_') or lhs.startswith('g_'):
                     v = val.get('data', val.get('name'))
                     if v is None and 'binary' in val:
                         v = val['binary']
